@@ -511,7 +511,9 @@ def compile(expr, pset):
         args = ",".join(arg for arg in pset.arguments)
         code = "lambda {args}: {code}".format(args=args, code=code)
     try:
-        return eval(code, pset.context, {})
+        # Evaluate in a copy of the context, so that the function returned
+        # keeps the bindings (e.g. the ADFs) it has been compiled with.
+        return eval(code, dict(pset.context), {})
     except MemoryError:
         _, _, traceback = sys.exc_info()
         raise MemoryError("DEAP : Error in tree evaluation :"
